@@ -3270,7 +3270,7 @@ impl<'a, R: FileManager> FrontendCtx<'a, R> {
             (
                 RuntypeKind::Object {
                     vs,
-                    indexed_properties: _,
+                    indexed_properties,
                 },
                 other,
             ) => {
@@ -3293,6 +3293,17 @@ impl<'a, R: FileManager> FrontendCtx<'a, R> {
                                     Optionality::Required(r) => {
                                         acc.push(r.clone());
                                     }
+                                }
+                            } else if let Some(ip) = indexed_properties {
+                                // a key no property declares is supplied by the index signature
+                                match &ip.key.kind {
+                                    RuntypeKind::String => match &ip.value {
+                                        Optionality::Optional(o) => acc
+                                            .push(Runtype::any_of(vec![o.clone(), Runtype::null()])),
+                                        Optionality::Required(r) => acc.push(r.clone()),
+                                    },
+                                    // a narrower key type: let the semantic path decide
+                                    _ => return Ok(None),
                                 }
                             } else {
                                 // noop (same as pushing never)
